@@ -153,34 +153,40 @@ func (g *DirectedTargetGraph) GetDependants(target model.BuildNode) []model.Buil
 }
 
 // GetDescendants returns a list of nodes that are descendants (dependants) of the given node.
-// Recurses via the outEdges of each node.
+// Every descendant is returned exactly once, in depth-first order via the outEdges of each node.
 func (g *DirectedTargetGraph) GetDescendants(target model.BuildNode) []model.BuildNode {
-	var descendants []model.BuildNode
-	for _, descendant := range g.outEdges[target.GetLabel()] {
-		descendants = append(descendants, descendant)
-
-		// Recurse
-		recursiveDescendants := g.GetDescendants(descendant)
-		descendants = append(descendants, recursiveDescendants...)
-	}
-	return descendants
+	return collectReachable(target, g.outEdges)
 }
 
 // GetAncestors returns a list of nodes that are ancestors (transitive dependencies) of the given node.
-// Recurses via the inEdges of each node.
+// Every ancestor is returned exactly once, in depth-first order via the inEdges of each node.
 func (g *DirectedTargetGraph) GetAncestors(target model.BuildNode) []model.BuildNode {
-	var ancestors []model.BuildNode
-	for _, ancestor := range g.inEdges[target.GetLabel()] {
-		ancestors = append(ancestors, ancestor)
-
-		// Recurse
-		recursiveAncestors := g.GetAncestors(ancestor)
-		ancestors = append(ancestors, recursiveAncestors...)
-	}
-	return ancestors
+	return collectReachable(target, g.inEdges)
 }
 
-// hasNode checks whether a node exists in the graph.
+// collectReachable returns all nodes reachable from start via the given edges (excluding start).
+// It keeps a visited set so that the work is bounded by the number of nodes and edges
+// and not by the number of paths (which is exponential for diamond-shaped graphs).
+func collectReachable(start model.BuildNode, edges map[label.TargetLabel][]model.BuildNode) []model.BuildNode {
+	var reachable []model.BuildNode
+	visited := map[label.TargetLabel]struct{}{start.GetLabel(): {}}
+
+	var visit func(node model.BuildNode)
+	visit = func(node model.BuildNode) {
+		for _, next := range edges[node.GetLabel()] {
+			if _, seen := visited[next.GetLabel()]; seen {
+				continue
+			}
+			visited[next.GetLabel()] = struct{}{}
+			reachable = append(reachable, next)
+			visit(next)
+		}
+	}
+	visit(start)
+
+	return reachable
+}
+
 func (g *DirectedTargetGraph) hasNode(node model.BuildNode) bool {
 	if node == nil {
 		return false
